@@ -51,6 +51,14 @@ MUTATIONS = [
     ),
 ]
 
+# found by white-box adversaries (notes/adversary/C12_miss*.md); silent when found.
+# (C12_miss2 -- Echo value derived from the key instead of drawn per process -- is caught by C13.)
+A = "notes/adversary/"
+MUTATIONS += [
+    ("C12", "adv-late-response-reinitialises-window", [("@patch", A + "C12_miss1.diff", 3)]),
+    ("C12", "adv-uninitialised-window-without-echo-starts-over", [("@patch", A + "C12_miss3.diff", 3)]),
+]
+
 CONTROLS = [
     # bit `size` of the bitfield is never set, so `>` instead of `>=` changes nothing
     ("C12", "is-valid-upper-boundary-gt", [(OS, "        if number >= self._index + self._size:\n", "        if number > self._index + self._size:\n")]),
